@@ -7,6 +7,8 @@ optionally perturbed (lazy continuation, truncation at any offset, hot character
 """
 from __future__ import annotations
 
+import re
+
 import json
 import os
 from functools import lru_cache
@@ -698,7 +700,10 @@ def soup_d(d: D) -> str:
 
 
 SURROGATE_RATE = 0.02  # share of documents that get surrogate code points inserted ("every Python string")
-SURROGATES = ["\ud800", "\udc00", "\ud800\udc00", "\udbff\udfff", "\udc00\ud800", "\ud83d", "\ude00"]
+SURROGATES = ["\ud800", "\udc00", "\udc00\ud800", "\ud83d", "\ude00", "\udfff\udbff"]
+# a high surrogate directly followed by a low one makes the URL-encoding dependency raise (stated in C01's quantifier, and
+# excluded there): that one shape is kept out of the general generators (C05 generates it on purpose)
+_SPLIT_PAIR = re.compile("([\ud800-\udbff])([\udc00-\udfff])")
 
 
 def any_doc_d(d: D, tabs: bool = True, maxdepth: int = 3) -> str:
@@ -707,6 +712,8 @@ def any_doc_d(d: D, tabs: bool = True, maxdepth: int = 3) -> str:
         for _ in range(d.i(1, 3)):
             i = d.i(0, len(s))
             s = s[:i] + d.pick(SURROGATES) + s[i:]
+        while _SPLIT_PAIR.search(s):
+            s = _SPLIT_PAIR.sub(r"\2\1", s)
     return s
 
 
